@@ -302,3 +302,12 @@ Proof. vm_compute. split; reflexivity. Qed.
 
 Lemma endpoint_bits : bits_of_f32 f32_zero = 0%N /\ bits_of_f32 f32_one = 0x3f800000%N.
 Proof. vm_compute. split; reflexivity. Qed.
+
+(** The float layer on two classic cases (also used to cross-check the extraction):
+    0.1 + 0.2 and (1/3) as f32 *)
+Example ex_float_layer :
+  bits_of_f64 (f64_add (d 0x3fb999999999999a) (d 0x3fc999999999999a)) = 0x3fd3333333333334%N
+  /\ bits_of_f32 (f32_of_f64 (f64_div f64_one (f64_of_Z 3))) = 0x3eaaaaab%N
+  /\ bits_of_f64 (f64_of_Z (2 ^ 53 + 1)) = 0x4340000000000000%N
+  /\ f64_clamp f64_one f64_nan f64_one = Panic.
+Proof. vm_compute. repeat split; reflexivity. Qed.
